@@ -29,6 +29,9 @@ for avail in [0, 1, 4, 5, 6, 8]:
     for chunk in ([1, 2, 5, 8] if avail >= 4 else [8]):
         H.append(dict(name="marshalling.ScalarUnmarshalFrom-avail%d-chunk%d" % (avail, chunk), pkg=MP, files=MF, entry="HarnessScalarUnmarshalFrom", mode="bv", params={"p0": avail, "p1": chunk}, validate=2, unwind=64,
                       functions=["marshalling.ScalarUnmarshalFrom", "io.ReadFull", "io.ReadAtLeast"], bound="stream of %d bytes delivered in chunks of at most %d" % (avail, chunk)))
+H.append(dict(name="bn254.gfP.Unmarshal", pkg="./pairing/bn254", files=["harness/C03/bn254_unmarshal.go"], entry="HarnessBN254GfpUnmarshal", mode="bv", unwind=100, validate=8, globals=["p2"],
+              functions=["bn254.(*gfP).Unmarshal"], bound="all 2^256 32-byte inputs",
+              mutants=[dict(id="C03bn1", file="pairing/bn254/gfp.go", old="\tfor i := 3; i >= 0; i-- {\n\t\tif e[i] < p2[i] {", new="\tfor i := 3; i > 0; i-- {\n\t\tif e[i] < p2[i] {")]))
 BP = "go.dedis.ch/kyber/v4/pairing/bn256."
 H.append(dict(name="bn256.G1.MarshalBinary-roundtrip", pkg="./pairing/bn256", files=["harness/C03/bn_marshal.go"], entry="HarnessBNG1Marshal", mode="bv", unwind=200, no_replay=True,
               renames={BP + "gfpMul": "c03Mont", "(*" + BP + "curvePoint).IsOnCurve": "c03OnCurve"},
